@@ -238,6 +238,66 @@ def d5(ctx, prog):
     return n
 
 
+def d8(ctx, prog):
+    """dimensional analysis of the three metrics: class counters n, class sums u n, class sums of squares u^2 n (from the
+    accumulation kernel), the total count n; every sum / difference homogeneous; NICV and SNR are dimensionless and do not change
+    when the data set is duplicated (u^0 n^0); the F statistic is scale free and grows like n (u^0 n^1)."""
+    from . import dims
+    from .. import units, kernels as _k
+    base = prog.need_class(PART, 'PartitionedDistinguisherMixin')
+    k1 = prog.resolve_method(base, '_accumulate_core_1')
+    acc = prog.resolve_method(base, '_accumulate')
+    n = 0
+    key = f'{base.key}::accumulator dimensions'
+    if k1 is None or acc is None:
+        ctx.undecided('C04-D8', key, 'accumulation kernel not found', base.mod.relpath)
+        return 0
+    tp = k1.params[0]
+    seeds = {tp: dims.U(u=1), k1.params[1]: units.CONST}
+    seeds.update({p_: units.CONST for p_ in k1.params if 'prec' in p_})
+    contrib, xk = dims.contributions(prog, k1, seeds, {tp})
+    dims.report_mismatches(ctx, 'C04-D8', k1, xk)
+    want_acc = {'counters': dims.U(n=1), 'sum': dims.U(u=1, n=1), 'sum_square': dims.U(u=2, n=1)}
+    calls = [c for c in ast.walk(acc.node) if isinstance(c, ast.Call) and isinstance(c.func, ast.Attribute) and c.func.attr == k1.name]
+    amap = _k.call_arg_map(k1, calls[0]) if calls else {}
+    got = {}
+    for p_, dm in contrib.items():
+        a = amap.get(p_)
+        if a is not None and self_attr(a):
+            got[self_attr(a)] = dm
+    for a, w in want_acc.items():
+        n += 1
+        if a not in got or got[a] is units.TOP:
+            ctx.undecided('C04-D8', f'{key} self.{a}', f'dimension of self.{a} not derivable from {k1.qualname}', k1.where())
+        else:
+            ctx.check(got[a] == w, 'C04-D8', f'{key} self.{a}', f'{k1.qualname} accumulates {units.show(got[a])} into self.{a}; the class {"count" if a == "counters" else "sum"} has dimension {units.show(w)}',
+                      f'self.{a}: {units.show(w)}', k1.where())
+    expect = {'ANOVADistinguisherMixin': (dims.U(n=1), 'the F statistic (scale free, grows like the number of traces)'),
+              'NICVDistinguisherMixin': ({}, 'a ratio of variances (dimensionless, independent of the number of traces)'),
+              'SNRDistinguisherMixin': ({}, 'a ratio of variances (dimensionless, independent of the number of traces)')}
+    for ci in prog.subclasses_of(base, strict=True):
+        f = ci.methods.get('_compute_metric')
+        if f is None or ci.name not in expect:
+            continue
+        ps = [p_ for p_ in f.params if p_ != 'self']
+        if len(ps) != 5:
+            ctx.undecided('C04-D8', f'{f.key}::dimension', 'metric signature changed', f.where())
+            continue
+        seeds = {ps[0]: units.CONST, ps[1]: dims.U(n=1), ps[2]: dims.U(u=1, n=1), ps[3]: dims.U(u=2, n=1), ps[4]: dims.U(n=1)}
+        x = units.Units(f, seeds=seeds, prog=prog).run()
+        nm = dims.report_mismatches(ctx, 'C04-D8', f, x)
+        n += 1
+        rets = [d for d, _ in x.returns]
+        wantd, what = expect[ci.name]
+        if not rets or any(d is units.TOP for d in rets):
+            if not nm:
+                ctx.undecided('C04-D8', f'{f.key}::dimension', 'dimension of the metric not derivable', f.where())
+            continue
+        bad = [d for d in rets if d != wantd and d != units.CONST]
+        ctx.check(not bad, 'C04-D8', f'{f.key}::dimension', f'the metric has dimension {units.show(bad[0]) if bad else ""}; {what} has {units.show(wantd)}', f'metric dimension {units.show(wantd)}', f.where())
+    return n
+
+
 def run(ctx, prog):
     ctx.rule('C04-D1', 'one "count is positive" mask selects the class axis of counters, sum and sum_square; only masked values reach the metric')
     ctx.rule('C04-D2', 'metrics read only their parameters, store nothing, use no constant class position')
@@ -269,6 +329,8 @@ def run(ctx, prog):
             o.rule = 'C04-D7'
             ctx._add(o)
     ctx.floor('partitioned classes under the accumulation rules', n7, 3)
+    ctx.rule('C04-D8', 'dimensional analysis: counters n, sums u n, sums of squares u^2 n (from the kernel); every +/- homogeneous; NICV and SNR u^0 n^0, ANOVA F u^0 n^1')
+    ctx.floor('dimension obligations (partitioned metrics)', d8(ctx, prog), 6)
     n3 = infnan_rule(ctx, prog, 'C04-D3', {PART})
     ctx.rule('C04-D5', 'extent homogeneity: the size of the declared class set (which counts empty classes) enters each metric with total exponent 0')
     ctx.floor('partitioned classes whose compute closure is checked for purity', d2_purity(ctx, prog), 6)
